@@ -332,6 +332,12 @@ Exec(db, op, ns, a) ==
          ELSE IF a.name = "_id_" THEN Failed(db)                        \* C15: dropping indexes never removes the _id index
          ELSE IF ~\E d \in coll.idx : d.name = a.name THEN Failed(db)
          ELSE R(Res, SetColl(db, ns, [coll EXCEPT !.idx = {d \in @ : d.name # a.name}]), <<>>)
+    [] op = "dropIndexByKey" ->                                       \* IndexView.DropOneWithKey: the index whose key compares equal
+         IF ~Exists(db, ns) THEN Failed(db)
+         ELSE LET hits == {d \in coll.idx : Cmp(d.key, a.key) = 0} IN
+              IF hits = {} THEN Failed(db)
+              ELSE IF \E d \in hits : d.name = "_id_" THEN Failed(db)   \* C15: the _id index stays, whichever way it is addressed
+              ELSE R(Res, SetColl(db, ns, [coll EXCEPT !.idx = @ \ hits]), <<>>)
     [] op = "dropAllIndexes" ->
          IF ~Exists(db, ns) THEN Failed(db)
          ELSE R(Res, SetColl(db, ns, [coll EXCEPT !.idx = {d \in @ : d.name = "_id_"}]), <<>>)
